@@ -75,6 +75,12 @@ def legs(tier, for_replay=False):
         out.append(Leg('programs_N3_len3', fn_programs, p3s, chunk=8, src_states=len(p3s),
                        bound='N=3: all %d programs of length exactly 3 over the 7-letter sub-alphabet %s (H0, CNOT(2,1), CNOT(0,2), gen(0,1) -XZ, '
                              'clifford_rotation_gate(XIY), fmap(0,2), bmap(1,2)); the thorough tier covers length <= 4 over all 17 letters' % (len(p3s), SUB7)))
+    if quick:
+        p4s = sorted({tuple(p) for sub in ((11, 1, 8, 10), (11, 0, 15, 10)) for p in itertools.product(sub, repeat=4)})
+        p4s = [[3, list(p)] for p in p4s]
+        out.append(Leg('programs_N3_len4', fn_programs, p4s, chunk=8, src_states=len(p4s),
+                       bound='N=3: all %d programs of length exactly 4 over the two 4-letter sub-alphabets (gen(0,1), H1, CNOT(0,2), gen(2)) and '
+                             '(gen(0,1), H0, bmap(1,2), gen(2)): a gate sinks into a non-first layer next to another gate and a later gate overlaps only the sunk one' % len(p4s)))
     p4 = circ.programs('py', 4, 2 if quick else 3)
     out.append(Leg('programs_N4', fn_programs, p4, chunk=4 if quick else 16, src_states=len(p4), timeout=3000,
                    bound='N=4: all %d programs of length <= %d over 10 letters (two 2-qubit gates on interleaved wires (0,2),(1,3) can share a layer; '
@@ -93,6 +99,14 @@ def legs(tier, for_replay=False):
     t2 = circ.programs('torch', 2, 2 if quick else 3)
     if quick:   # three-gate programs (the shortest in which layer packing can go wrong) over 4 of the 8 letters
         t2 = t2 + [[2, list(p)] for p in itertools.product((0, 1, 2, 5), repeat=3)]
+    # four-gate programs: the shortest in which a gate sinks into a NON-first layer next to another gate and a later gate
+    # overlaps only the sunk one (N=2: XZ(0,1), Y(1), H(0), bmap(0); N=3: XZ(0,1), X(2), H(0), bmap(1,2))
+    t4 = [[2, list(p)] for p in itertools.product((0, 1, 2, 7), repeat=4)] + [[3, list(p)] for p in itertools.product((0, 1, 4, 7), repeat=4)]
+    if not quick:
+        t4 += [[3, list(p)] for p in itertools.product((1, 3, 4, 5, 7), repeat=4)]
+    out.append(Leg('torch_programs_len4', fn_torch_programs, t4, chunk=2, timeout=3000,
+                   bound='torchclifford: all 4-gate programs over the 4-letter sub-alphabets (0,1,2,7) at N=2 and (0,1,4,7) at N=3 (one two-qubit gate, '
+                         'single-qubit gates on different wires, a backward-map gate)%s' % ('' if quick else '; N=3 also over the 5 letters (1,3,4,5,7)')))
     out.append(Leg('torch_programs', fn_torch_programs, t2 + t3, chunk=2, timeout=3000,
                    bound='torchclifford: all programs of length <= %d over 8 (N=2) / 9 (N=3) letters; uncompiled / copy / composed' % (2 if quick else 3)))
     tg = [it for N in (2, 3) for it in circ.gate_specs('torch', N, tier, 'C10')]
